@@ -7,9 +7,9 @@
 //!
 //! Trace (actor `r<i>` = ring i, `f<k>` = file k, `ctl`):
 //!   OP ctl newring <entries>                         OBS ring <id> | invalid
-//!   OP r<i> push <ud> read <fd> <off> <len> [link]   OBS pushed | full
-//!   OP r<i> push <ud> write <fd> <off> <hex> [link]
-//!   OP r<i> push <ud> fsync <fd> [link] | push <ud> cancel <target>
+//!   OP r<i> push <ud> read <fd> <off> <len> [fl=<IOSQE bits>]   OBS pushed | full
+//!   OP r<i> push <ud> write <fd> <off> <hex> [fl=<IOSQE bits>]
+//!   OP r<i> push <ud> fsync <fd> [fl=<IOSQE bits>] | push <ud> cancel <target>
 //!   OP r<i> submit | submitwait <n> | submitbadts    ORA lat <ud>:<ns> ...   OBS submitted <n> | err <kind>
 //!   OP r<i> cqnew | cqsync | next | readable | dropring
 //!       OBS unit | synced <n> | none | cqe <ud> <res> buf=<hex> twin=<res> twinbuf=<hex> | ready | pending | err <kind>
@@ -49,7 +49,7 @@ pub enum Kind {
 #[derive(Clone, Debug, PartialEq)]
 pub enum Op {
     NewRing(u32),
-    Push { ring: u32, ud: u64, kind: Kind, link: bool },
+    Push { ring: u32, ud: u64, kind: Kind, flags: u8 },
     Submit { ring: u32, mode: u8, want: u32 }, // mode 0 submit, 1 submit_and_wait, 2 submit_with_args(bad timespec)
     CqNew(u32),
     CqSync(u32),
@@ -78,8 +78,8 @@ impl Op {
     fn text(&self) -> String {
         match self {
             Op::NewRing(n) => format!("ctl newring {n}"),
-            Op::Push { ring, ud, kind, link } => {
-                let l = if *link { " link" } else { "" };
+            Op::Push { ring, ud, kind, flags } => {
+                let l = if *flags != 0 { format!(" fl={flags}") } else { String::new() };
                 match kind {
                     Kind::Read { fd, off, len } => format!("r{ring} push {ud} read {fd} {off} {len}{l}"),
                     Kind::Write { fd, off, data } => format!("r{ring} push {ud} write {fd} {off} {}{l}", hex(data)),
@@ -120,7 +120,7 @@ impl Op {
             "newring" => Op::NewRing(n(2)? as u32),
             "push" => {
                 let ud = n(2)?;
-                let link = t.last().map(|s| s == "link").unwrap_or(false);
+                let flags: u8 = t.last().and_then(|s| s.strip_prefix("fl=")).and_then(|v| v.parse().ok()).unwrap_or(0);
                 let kind = match t.get(3)?.as_str() {
                     "read" => Kind::Read { fd: n(4)? as u32, off: n(5)?, len: n(6)? as u32 },
                     "write" => Kind::Write { fd: n(4)? as u32, off: n(5)?, data: unhex(t.get(6)?) },
@@ -128,7 +128,7 @@ impl Op {
                     "cancel" => Kind::Cancel { target: n(4)? },
                     _ => return None,
                 };
-                Op::Push { ring: idx, ud, kind, link }
+                Op::Push { ring: idx, ud, kind, flags }
             }
             "submit" => Op::Submit { ring: idx, mode: 0, want: 0 },
             "submitwait" => Op::Submit { ring: idx, mode: 1, want: n(2)? as u32 },
@@ -175,6 +175,30 @@ fn fs_config(c: &Cfg) -> FsConfig {
     cfg
 }
 
+/// `IOSQE_*` bits → the crate's `Flags` (bit 0 FIXED_FILE … bit 5 BUFFER_SELECT)
+fn sq_flags(bits: u8) -> squeue::Flags {
+    let all = [
+        squeue::Flags::FIXED_FILE,
+        squeue::Flags::IO_DRAIN,
+        squeue::Flags::IO_LINK,
+        squeue::Flags::IO_HARDLINK,
+        squeue::Flags::ASYNC,
+        squeue::Flags::BUFFER_SELECT,
+    ];
+    let mut f = squeue::Flags::empty();
+    for (i, x) in all.iter().enumerate() {
+        if bits & (1 << i) != 0 {
+            f |= *x;
+        }
+    }
+    f
+}
+
+/// what the specification says is rejected: everything but ASYNC
+fn rejected(bits: u8) -> bool {
+    bits & 0b101111 != 0
+}
+
 struct FdOnly(RawFd);
 impl AsRawFd for FdOnly {
     fn as_raw_fd(&self) -> RawFd {
@@ -195,7 +219,7 @@ struct SqeInfo {
     ring: u32,
     ud: u64,
     kind: Kind,
-    link: bool,
+    flags: u8,
     buf: usize,
     done: bool,
     /// generation of the file handle whose fd the SQE carries
@@ -406,7 +430,7 @@ impl World {
                     }
                 })
             }
-            Op::Push { ring, ud, kind, link } => {
+            Op::Push { ring, ud, kind, flags } => {
                 let fdraw = match kind {
                     Kind::Read { fd, .. } | Kind::Write { fd, .. } | Kind::Fsync { fd } => self.raw_fd(*fd),
                     _ => 0,
@@ -428,10 +452,10 @@ impl World {
                     Kind::Cancel { target } => opcode::AsyncCancel::new(*target).build(),
                 }
                 .user_data(*ud);
-                if *link {
-                    entry = entry.flags(squeue::Flags::IO_LINK);
+                if *flags != 0 {
+                    entry = entry.flags(sq_flags(*flags));
                 }
-                let (ring, ud, kind, link) = (*ring, *ud, kind.clone(), *link);
+                let (ring, ud, kind, flags) = (*ring, *ud, kind.clone(), *flags);
                 self.entered(|w| {
                     let Some(rh) = w.rings.get_mut(&ring) else { return "invalid".to_string() };
                     let Some(r) = rh.ring.as_mut() else { return "invalid".to_string() };
@@ -443,7 +467,7 @@ impl World {
                                 }
                                 _ => 0,
                             };
-                            w.sqes.push(SqeInfo { ring, ud, kind, link, buf: bi, done: false, gen });
+                            w.sqes.push(SqeInfo { ring, ud, kind, flags, buf: bi, done: false, gen });
                             "pushed".to_string()
                         }
                         Err(_) => "full".to_string(),
@@ -516,7 +540,7 @@ impl World {
                             Some(i) => {
                                 self.sqes[i].done = true;
                                 let kind = self.sqes[i].kind.clone();
-                                let link = self.sqes[i].link;
+                                let link = rejected(self.sqes[i].flags);
                                 let buf = match kind {
                                     Kind::Read { .. } => self.bufs[self.sqes[i].buf].to_vec(),
                                     _ => vec![],
@@ -821,7 +845,7 @@ fn run_case_sim(case: &Case, seed: u64) -> Vec<String> {
                 });
             }
             let mut dead = false;
-            let mut step = |sim: &mut turmoil::Sim<'_>| -> Result<(), &'static str> {
+            let step = |sim: &mut turmoil::Sim<'_>| -> Result<(), &'static str> {
                 match catch(|| sim.step()) {
                     Ok(Ok(_)) => Ok(()),
                     Ok(Err(_)) => Err("simerr"),
@@ -1058,9 +1082,9 @@ fn gen_history(rng: &mut Rng, p: &GenParams) -> (Cfg, Vec<Op>) {
                 // the same user_data again — with the identical operation, so that attribution is immaterial
                 let prev: Vec<Op> = ops.iter().filter(|o| matches!(o, Op::Push { kind, .. } if !matches!(kind, Kind::Read { .. } | Kind::Cancel { .. }))).cloned().collect();
                 if !prev.is_empty() {
-                    if let Op::Push { ud, kind, link, .. } = rng.pick(&prev).clone() {
+                    if let Op::Push { ud, kind, flags, .. } = rng.pick(&prev).clone() {
                         pushed_uds.push(ud);
-                        ops.push(Op::Push { ring, ud, kind, link });
+                        ops.push(Op::Push { ring, ud, kind, flags });
                         continue;
                     }
                 }
@@ -1077,9 +1101,23 @@ fn gen_history(rng: &mut Rng, p: &GenParams) -> (Cfg, Vec<Op>) {
                 }
                 _ => Kind::Fsync { fd },
             };
-            let link = rng.below(100) < p.w_link;
+            let flags: u8 = if rng.below(100) < p.w_link {
+                match rng.below(8) {
+                    0 => 1,
+                    1 => 2,
+                    2 | 3 => 4,
+                    4 => 8,
+                    5 => 32,
+                    6 => 16 | 4,
+                    _ => (rng.below(63) + 1) as u8,
+                }
+            } else if rng.chance(1, 12) {
+                16 // ASYNC: accepted, no effect
+            } else {
+                0
+            };
             pushed_uds.push(ud);
-            ops.push(Op::Push { ring, ud, kind, link });
+            ops.push(Op::Push { ring, ud, kind, flags });
             // bursts fill the queue
             if rng.chance(1, 3) {
                 continue;
@@ -1105,7 +1143,7 @@ fn gen_history(rng: &mut Rng, p: &GenParams) -> (Cfg, Vec<Op>) {
             let ud = next_ud;
             next_ud += 1;
             pushed_uds.push(ud);
-            ops.push(Op::Push { ring, ud, kind: Kind::Cancel { target }, link: false });
+            ops.push(Op::Push { ring, ud, kind: Kind::Cancel { target }, flags: 0 });
             if rng.chance(2, 3) {
                 ops.push(Op::Submit { ring, mode: 0, want: 0 });
                 submitted_uds.append(&mut pushed_uds.clone());
@@ -1255,7 +1293,7 @@ fn crash_points(rng: &mut Rng, out: &mut Vec<Case>, n_bases: usize) {
             let mut ops: Vec<Op> = base[..cut].to_vec();
             ops.push(Op::Crash);
             // the dead ring's handle is tried first
-            ops.push(Op::Push { ring: 0, ud: 700, kind: Kind::Fsync { fd: 0 }, link: false });
+            ops.push(Op::Push { ring: 0, ud: 700, kind: Kind::Fsync { fd: 0 }, flags: 0 });
             ops.push(Op::Submit { ring: 0, mode: 0, want: 0 });
             ops.push(Op::Advance(50_000_000));
             ops.push(Op::Readable(0));
@@ -1265,8 +1303,8 @@ fn crash_points(rng: &mut Rng, out: &mut Vec<Case>, n_bases: usize) {
             ops.push(Op::FOpen(0));
             ops.push(Op::NewRing(2));
             ops.push(Op::CqNew(1));
-            ops.push(Op::Push { ring: 1, ud: 800, kind: Kind::Read { fd: 0, off: 0, len: 8 }, link: false });
-            ops.push(Op::Push { ring: 1, ud: 801, kind: Kind::Write { fd: 0, off: 1, data: vec![0x11, 0x22] }, link: false });
+            ops.push(Op::Push { ring: 1, ud: 800, kind: Kind::Read { fd: 0, off: 0, len: 8 }, flags: 0 });
+            ops.push(Op::Push { ring: 1, ud: 801, kind: Kind::Write { fd: 0, off: 1, data: vec![0x11, 0x22] }, flags: 0 });
             ops.push(Op::Submit { ring: 1, mode: 0, want: 0 });
             closing(&mut ops, 2);
             out.push(Case { family: "crashpoint", mode: "standalone", cfg: cfg.clone(), ops });
@@ -1292,7 +1330,7 @@ fn cancel_matrix(rng: &mut Rng, out: &mut Vec<Case>) {
                     cfg.cache = false;
                     cfg.init = vec![vec![1, 2, 3, 4, 5, 6]];
                     let mut ops = vec![Op::NewRing(4), Op::CqNew(0)];
-                    ops.push(Op::Push { ring: 0, ud: 20, kind: kind.clone(), link: false });
+                    ops.push(Op::Push { ring: 0, ud: 20, kind: kind.clone(), flags: 0 });
                     match stage {
                         0 => {} // cancel travels in the same batch, after its target
                         1 => ops.push(Op::Submit { ring: 0, mode: 0, want: 0 }), // in flight
@@ -1308,22 +1346,22 @@ fn cancel_matrix(rng: &mut Rng, out: &mut Vec<Case>) {
                         }
                         _ => {
                             // matured and promoted into `ready` by a drain of something else
-                            ops.push(Op::Push { ring: 0, ud: 19, kind: Kind::Fsync { fd: 0 }, link: false });
+                            ops.push(Op::Push { ring: 0, ud: 19, kind: Kind::Fsync { fd: 0 }, flags: 0 });
                             ops.push(Op::Submit { ring: 0, mode: 0, want: 0 });
                             ops.push(Op::Advance(2_000_000));
                             ops.push(Op::CqSync(0));
                             ops.push(Op::Next(0));
                         }
                     }
-                    ops.push(Op::Push { ring: 0, ud: 21, kind: Kind::Cancel { target: 20 }, link: false });
+                    ops.push(Op::Push { ring: 0, ud: 21, kind: Kind::Cancel { target: 20 }, flags: 0 });
                     ops.push(Op::Submit { ring: 0, mode: 0, want: 0 });
                     match second {
                         1 => {
-                            ops.push(Op::Push { ring: 0, ud: 22, kind: Kind::Cancel { target: 20 }, link: false });
+                            ops.push(Op::Push { ring: 0, ud: 22, kind: Kind::Cancel { target: 20 }, flags: 0 });
                             ops.push(Op::Submit { ring: 0, mode: 0, want: 0 });
                         }
                         2 => {
-                            ops.push(Op::Push { ring: 0, ud: 22, kind: Kind::Cancel { target: 21 }, link: false });
+                            ops.push(Op::Push { ring: 0, ud: 22, kind: Kind::Cancel { target: 21 }, flags: 0 });
                             ops.push(Op::Submit { ring: 0, mode: 0, want: 0 });
                         }
                         _ => {}
@@ -1359,7 +1397,7 @@ fn durability(rng: &mut Rng, out: &mut Vec<Case>, n: usize) {
                         for _ in 0..rng.range(1, 2) {
                             let n = rng.range(1, 5) as usize;
                             let data: Vec<u8> = (0..n).map(|_| rng.below(255) as u8).collect();
-                            ops.push(Op::Push { ring: 0, ud, kind: Kind::Write { fd: 0, off: rng.below(10), data }, link: false });
+                            ops.push(Op::Push { ring: 0, ud, kind: Kind::Write { fd: 0, off: rng.below(10), data }, flags: 0 });
                             ud += 1;
                         }
                         ops.push(Op::Submit { ring: 0, mode: 0, want: 0 });
@@ -1372,7 +1410,7 @@ fn durability(rng: &mut Rng, out: &mut Vec<Case>, n: usize) {
                     }
                     _ => {
                         if rng.chance(3, 4) {
-                            ops.push(Op::Push { ring: 0, ud, kind: Kind::Fsync { fd: 0 }, link: false });
+                            ops.push(Op::Push { ring: 0, ud, kind: Kind::Fsync { fd: 0 }, flags: 0 });
                             ud += 1;
                             ops.push(Op::Submit { ring: 0, mode: 0, want: 0 });
                             if rng.chance(5, 6) {
@@ -1419,7 +1457,7 @@ fn await_loops(rng: &mut Rng, out: &mut Vec<Case>, n: usize) {
                     1 => Kind::Write { fd: 0, off: rng.below(6), data: vec![rng.below(255) as u8; rng.range(1, 4) as usize] },
                     _ => Kind::Fsync { fd: 0 },
                 };
-                ops.push(Op::Push { ring: 0, ud, kind, link: false });
+                ops.push(Op::Push { ring: 0, ud, kind, flags: 0 });
                 ud += 1;
             }
             ops.push(Op::Submit { ring: 0, mode: 0, want: 0 });
@@ -1489,8 +1527,8 @@ pub fn main(args: &Args, out: &mut dyn Write) {
         cases.push(Case { family: "replay", mode, cfg, ops });
     } else {
         let scale = match args.tier.as_str() {
-            "thorough" => 30,
-            "search" => 6,
+            "thorough" => 100,
+            "search" => 8,
             _ => 1,
         };
         let fam = |family: &'static str| GenParams {
@@ -1520,7 +1558,8 @@ pub fn main(args: &Args, out: &mut dyn Write) {
             (GenParams { w_cancel: 22, w_push: 30, w_crash: 0, len: 36, ..fam("cancel") }, 200),
             (GenParams { w_drain: 8, w_advance: 24, w_readable: 16, w_crash: 0, ..fam("asyncfd") }, 120),
             (GenParams { w_link: 30, w_close: 10, nfiles: 2, ..fam("flagsclosed") }, 120),
-            (GenParams { dup_ud: true, w_cancel: 0, w_crash: 0, ..fam("dupud") }, 80),
+            // entries sharing a user_data must be the *same* operation on the same fd generation: no close / reopen here
+            (GenParams { dup_ud: true, w_cancel: 0, w_crash: 0, w_close: 0, w_dropring: 0, ..fam("dupud") }, 80),
             (GenParams { w_crash: 8, w_dropring: 5, nrings: 2, nfiles: 2, len: 40, ..fam("crashreuse") }, 160),
         ];
         for (p, n) in plans {
